@@ -28,7 +28,7 @@ def num(x):
     return str(int(x)) if x.is_integer() and abs(x) < 1e15 else repr(x)
 
 
-def synth_klattgrid(nform, pts, xmax, trailing_newline=True, gain_pts=None):
+def synth_klattgrid(nform, pts, xmax, trailing_newline=True, gain_pts=None, xmin=0):
     """KlattGrid text in Praat's long layout (each line ends with a blank, as Praat writes it).
     pts: dict path -> list of (time, value); unspecified tiers have no points."""
     L = []
@@ -39,7 +39,7 @@ def synth_klattgrid(nform, pts, xmax, trailing_newline=True, gain_pts=None):
     L.append("")
 
     def span(ind=""):
-        w(ind + "xmin = 0")
+        w(ind + "xmin = " + num(xmin))
         w(ind + "xmax = " + num(xmax))
 
     def points(path, ind=""):
